@@ -85,4 +85,16 @@ MODULES = {
              fragment={'first': 'total_width = 2 * total_wing + 1', 'last': 'n_iter = max(1, min('},
              returns=['window_width', 'order', 'n_iter'], ret=['Z', 'Z', 'Z']),
     ]),
+    # biweight_location: ONE ITERATION of `for _i in range(max_iter):` -- result = biloc_iter(a, initial) (an opaque
+    # input here; its statements are tied by FnDescriptives above), the convergence test, the re-centring
+    # (Proofs/FnBilocLoop.v: C19_source_biloc_loop -- the step iterated max_iter times, stopping at the first `break`, IS
+    #  Model/Descriptives.v biloc_loop)
+    # mutations that break the tie: `<= epsilon` -> `< epsilon`; `initial = result` dropped; `abs(result - initial)` -> `abs(result)`
+    'FnBilocLoop': ('cnvlib/descriptives.py', [
+        dict(name='biweight_location', coq='fn_biloc_step', py_params=['a', 'initial', 'c', 'epsilon', 'max_iter'],
+             loop=dict(first='for _i in range(max_iter)'),
+             carried=[('initial', 'Q'), ('result', 'Q')],
+             params=[('initial', 'Q'), ('result', 'Q'), ('epsilon', 'Q'), ('biloc_iter(a, initial)', 'Q', 'iter_value')],
+             ret=['Q', 'Q']),
+    ]),
 }
